@@ -132,26 +132,37 @@ impl<'a> World<'a> {
                 found.push(("duplicate-name", String::new(), p.detail.clone()));
             }
         }
+        // a name the history made that no directory shows (or one nothing made) is also a listing matter (C06),
+        // once the library's own listing through a fresh mount is known to equal the reader's
+        let c06: Vec<(&'static str, String)> = found.iter().filter(|f| f.0 == "entry-missing" || f.0 == "unexpected-entry" || f.0 == "dir-missing").map(|f| (f.0, f.2.clone())).collect();
         for (o, d, det) in found {
             self.violate("C02", &format!("remount/{}", o), &d, det);
         }
         if !self.faulty {
-            self.fresh_mount_compare(vol, &tree);
+            let disagreements = self.fresh_mount_compare(vol, &tree);
+            if disagreements == 0 {
+                for (o, det) in c06 {
+                    let oracle = if o == "unexpected-entry" { "listing-shows-unknown-entry" } else { "listing-misses-live-entry" };
+                    self.violate("C06", oracle, "fresh-mount", format!("{} (the library's listing through a fresh mount equals the independent reader's)", det));
+                }
+            }
         }
     }
 
     /// Mount the raw medium with a brand-new VolumeManager and walk it through the public API;
     /// it must show the same tree, sizes and contents as the independent reader.
-    fn fresh_mount_compare(&mut self, vol: usize, tree: &fatspec::Tree) {
+    fn fresh_mount_compare(&mut self, vol: usize, tree: &fatspec::Tree) -> usize {
         let g = self.vols[vol].geom.clone();
         let slot = self.vols[vol].mbr_slot;
         let problems = {
             let st = self.disk.st.borrow();
             lib_tree_compare(&st.image, slot, &g, tree, self.clock.secs.get())
         };
+        let n = problems.len();
         for (o, d) in problems {
             self.violate("C02", &format!("fresh-mount/{}", o), "", d);
         }
+        n
     }
 }
 
